@@ -36,3 +36,6 @@ def run(ctx):
     gridfun.repo_lints(ctx)
     spaces.dof_by_entity(ctx)
     rules.elements_adjacent_complete(ctx)  # the predicate that routes a pair to the singular rule (ADJ-9)
+    from .. import intwidth
+
+    intwidth.int_narrowing(ctx)  # index / offset arrays must not wrap
